@@ -292,7 +292,15 @@ pub fn s_dressed(h: &Handles) -> SBoxedStrategy<Dressed> {
         0..ns as u16,
         0..nr as u16,
         0u8..8,
-        proptest::collection::vec(proptest::sample::select(DRESS_VARIANTS.to_vec()).prop_map(|s| s.to_string()), 0..=3),
+        // registered variants too: code that interprets a variant (a romanisation, an orthography) reacts only to real ones
+        proptest::collection::vec(
+            prop_oneof![
+                3 => proptest::sample::select(DRESS_VARIANTS.to_vec()).prop_map(|s| s.to_string()),
+                3 => proptest::sample::select(gen::REAL_VARIANTS.to_vec()).prop_map(|s| s.to_string()),
+                1 => gen::s_variant(),
+            ],
+            0..=3,
+        ),
         proptest::option::weighted(0.6, gen::s_ast()),
     )
         .prop_map(|(kind, pick, l, s, r, mask, variants, ext)| Dressed { kind, pick, l, s, r, mask, variants, ext })
